@@ -15,7 +15,7 @@ def _stages(tier):
     if tier == 'thorough':
         tsan = [dict(name='tsan-%d' % i, harness='h_mt', flavour='tsan', cases=220, single_process=True, idle_timeout=200,
                      args={'base': 1000 * i, 'reps': 4}) for i in range(4)]
-        opt = [dict(name='opt-%d' % i, harness='h_mt', flavour='opt', cases=1000, single_process=True, idle_timeout=200,
+        opt = [dict(name='opt-%d' % i, harness='h_mt', flavour='opt', cases=800, single_process=True, idle_timeout=200,
                     args={'base': 100000 + 10000 * i, 'reps': 12}) for i in range(2)]
         return tsan + opt
     tsan = [dict(name='tsan-%d' % i, harness='h_mt', flavour='tsan', cases=20, single_process=True, idle_timeout=200,
